@@ -1,10 +1,12 @@
 import VrlModel.Driver.C18
 import VrlModel.Driver.C25
+import VrlModel.Driver.C29int
 
 /-- Line protocol driver: one case per line `op <tab> arg…`, one reply line per case. -/
 def handlers : List (String → List String → Option String) := [
   Driver.C18.handle,
-  Driver.C25.handle
+  Driver.C25.handle,
+  Driver.C29int.handle
 ]
 
 def dispatch (op : String) (args : List String) : String :=
